@@ -712,7 +712,13 @@ def check_key_traits(run, ctx):
             a = ex.operand(fmts[0]['args'][0])
             okk = a == ('param', 1)
             rets = [ex._def(d, 0) for d in body.defs.get(0, [])]
-            okk = okk and all(any(c[1] == 'alloc::fmt::format' for c in calls_in(r)) or (r[0] == 'call' and r[1] in ('alloc::fmt::format', 'core::hint::must_use')) for r in rets)
+
+            def _is_plain_format(r):
+                r = strip_casts(r)
+                if r[0] == 'call' and r[1] == 'core::hint::must_use' and r[2]:
+                    r = strip_casts(r[2][0])
+                return r[0] == 'call' and r[1] == 'alloc::fmt::format'
+            okk = okk and bool(rets) and all(_is_plain_format(r) for r in rets)
         if okk and body.impl_self == 'T':
             run.ok('C02-T1', 'blanket-impl', 'to_cache_key = format!("{:?}", self)')
         else:
